@@ -377,9 +377,10 @@ pub fn run_prop(prop: &dyn Prop, tier: Tier, seed: u64) -> i32 {
     let mut excl = Exclusions::default();
     let mut violations: Vec<(PathBuf, Violation)> = Vec::new();
     let mut known_lines = Vec::new();
+    let mut stale_reproducers: Vec<String> = Vec::new();
     let none = Exclusions::default();
 
-    // 1. known findings: replay reproducers, activate those that still reproduce
+    // 1. known findings: replay reproducers (reported), activate every listed finding
     for f in findings.iter().filter(|f| f.status == "known") {
         let mut reproduced = false;
         for rp in f.reproducer.iter().chain(f.reproducers.iter()) {
@@ -398,9 +399,15 @@ pub fn run_prop(prop: &dyn Prop, tier: Tier, seed: u64) -> i32 {
                 }
             }
         }
-        if reproduced {
-            known_lines.push(format!("KNOWN-FINDING: property={} {} [{}]", id, f.what, f.id));
-            excl.active.push(f.clone());
+        // A listed finding is tolerated by its signature whether or not one of its stored
+        // reproducers still reproduces: reproducers of concurrency findings depend on the exact
+        // schedule, which any unrelated change to the code under test shifts, and a violation the
+        // registry lists must not turn into an alarm because of that. (Entries with status
+        // "fixed" suppress nothing.) Whether a reproducer reproduced is reported in the evidence.
+        known_lines.push(format!("KNOWN-FINDING: property={} {} [{}]", id, f.what, f.id));
+        excl.active.push(f.clone());
+        if !reproduced {
+            stale_reproducers.push(f.id.clone());
         }
     }
     for l in &known_lines {
@@ -555,6 +562,7 @@ pub fn run_prop(prop: &dyn Prop, tier: Tier, seed: u64) -> i32 {
             "inconclusive": inconclusive,
             "regression_inputs_replayed": regress_run,
             "known_findings_active": excl.active.iter().map(|f| f.id.clone()).collect::<Vec<_>>(),
+            "known_findings_without_reproducing_reproducer": stale_reproducers,
             "shards": nshards,
         },
         "assumptions": prop.assumptions(),
